@@ -161,6 +161,11 @@ SKELETONS = {
  'name-lab-var': "var s0; var s1; var lab7; proc main() is { lab7 := s0; 0(lab7 + s1) }",
  'scope-shadow': HEAD + "func sh(val g) is return g + 1 proc main() is var s1; { g := 5; s1 := 2; 0(sh(s0) + g + s1) }",
  'local-val': HEAD + "proc main() is val k = 7; var x; { x := k + s0; 0(x - k) }",
+ 'local-val-var-call': HEAD + "proc main() is val k = 1; var i; { i := s0; put('a', 0); put('b', 0); 0(i + k) }",
+ 'local-val-var-temp': HEAD + "proc main() is val k = 3; var i; var j; { i := s0; j := s1; j := j - (i + k); 0(i - (j + k)) }",
+ 'local-val-var-copy': HEAD.replace("array a[4];", "array a[4]; array src[4];") + "proc main() is val step = 1; var i; { src[0] := 5; src[1] := s0; src[2] := 7; src[3] := 8; i := 0; while i < 4 do { a[i] := src[i]; i := i + step }; 0(a[1] + a[3]) }",
+ 'local-two-vals-vars': HEAD + "func t(val p) is val a1 = 1; val a2 = 2; var x; var y; { x := p + a1; y := f(x) + a2; return x + y } proc main() is 0(t(s0))",
+ 'local-val-in-func-call': HEAD + "func t(val p) is val one = 1; var x; { x := p; put('q', 0); return x + one } proc main() is 0(t(s0) + t(s1))",
  'stop': HEAD + "proc main() is { put('x', 0); if s0 = 0 then stop else skip; put('y', 0) }",
  'main-returns': HEAD + "proc main() is put('z', 0)",
  'proc-returns': HEAD + "proc noop(val x) is skip proc main() is { noop(s0); noop(s1); 0(3) }",
